@@ -2,16 +2,17 @@
 (* C06 - Task lifecycle: forward-only status, stable result, precise cancel *)
 EXTENDS ObsBase
 Ids == 1..16
-VARIABLES tid, l, tsk, sco, now, anycancel, bad
-vars == <<tid, l, tsk, sco, now, anycancel, bad>>
+VARIABLES tid, l, tsk, sco, now, anycancel, bad, flg, wt
+vars == <<tid, l, tsk, sco, now, anycancel, bad, flg, wt>>
+\* flg: mirror of the flags;  wt: awaits of tasks in progress ([a, k])
 \* tsk[k] = [s, started, ended, how, exc, rank, res, pre, pend]
 \*   rank: highest status rank seen (0 none,1 created,2 running,3 final) with final name in `fin`
 \*   res: outcome handed to awaiters (<<>> unknown, <<"ok">>, or the exception)
 \*   pre: cancelled before any of its code ran     pend: time of a cancel() while suspended, or -1
 NoTask == [s |-> 0, started |-> FALSE, ended |-> FALSE, how |-> "", exc |-> <<>>, rank |-> 0, fin |-> "",
-           res |-> <<>>, pre |-> FALSE, pend |-> 0, haspend |-> FALSE, tstart |-> 0, d0 |-> FALSE, sawct |-> FALSE, asleep |-> 0, must |-> FALSE]
+           res |-> <<>>, pre |-> FALSE, pend |-> 0, haspend |-> FALSE, tstart |-> 0, d0 |-> FALSE, sawct |-> FALSE, asleep |-> 0, must |-> FALSE, blk |-> 0]
 NoScope == [owner |-> 0, kind |-> "", cause |-> FALSE]
-Init == /\ tid \in 1..N /\ l = 1 /\ bad = "" /\ now = 0 /\ anycancel = FALSE
+Init == /\ tid \in 1..N /\ l = 1 /\ bad = "" /\ now = 0 /\ anycancel = FALSE /\ flg = [f \in 1..4 |-> FALSE] /\ wt = {}
         /\ tsk = [k \in Ids |-> NoTask] /\ sco = [s \in Ids |-> NoScope]
 Rank(v) == IF v = "created" THEN 1 ELSE IF v = "running" THEN 2 ELSE 3
 Fail(c) == bad' = c /\ UNCHANGED <<tsk, sco>>
@@ -28,18 +29,34 @@ Step ==
      \* (haspend is cleared as soon as the cancellation has been raised inside the task: see the "u"/"g" cases)
      /\ now' = t
      /\ anycancel' = (anycancel \/ (e.e = "b" /\ op = "cancel"))
+     /\ flg' = IF e.e = "b" /\ op = "fset" /\ e.f \in 1..4 THEN [flg EXCEPT ![e.f] = e.v] ELSE flg
+     /\ wt' = IF e.e = "b" /\ op = "await_t" THEN wt \cup {[a |-> a, k |-> e.k]}
+              ELSE IF e.e \in {"r", "x", "u"} /\ op = "await_t" THEN {w \in wt : w.a # a}
+              ELSE IF e.e = "end" THEN {w \in wt : w.a # a} ELSE wt
      /\ IF e.e = "fin"
         THEN \* cancelling must never take the whole simulation down
              IF anycancel /\ e.out.k = "exc" /\ e.out.internal THEN Fail("C06.cancel_broke_run")
              ELSE IF e.ok /\ \E k \in Ids : tsk[k].haspend /\ ~tsk[k].ended THEN Fail("C06.cancel_not_delivered")
+             \* every awaiter of a task that is done (ended, or cancelled before it started) has been resumed
+             ELSE IF e.ok /\ \E w \in wt : w.k \in Ids /\ (tsk[w.k].ended \/ tsk[w.k].pre) THEN Fail("C06.awaiter_left_waiting")
              ELSE UNCHANGED <<tsk, sco, bad>>
         ELSE IF late # {} THEN Fail("C06.cancel_not_prompt")
+        ELSE IF t > now /\ \E w \in wt : w.k \in Ids /\ (tsk[w.k].ended \/ tsk[w.k].pre) THEN Fail("C06.awaiter_left_waiting")
+        \* a task that certainly was not runnable when it was cancelled cannot return normally from that wait
+        ELSE IF a \in Ids /\ tsk[a].haspend /\ tsk[a].must /\ e.e = "r" /\ op \in {"sleep", "await_f"}
+             THEN Fail("C06.resumed_past_cancellation")
         ELSE IF a \in Ids /\ tsk[a].pre /\ e.e \in {"b", "r", "x", "p", "u", "end"} THEN Fail("C06.ran_after_precancel")
         ELSE
         LET tk0 == IF a \in Ids /\ tsk[a].s # 0 THEN [tsk EXCEPT ![a].started = TRUE] ELSE tsk
             \* asleep: the date until which the task sleeps (it cannot run before that date on its own)
             tk1 == IF a \in Ids /\ tsk[a].s # 0 /\ e.e = "b" /\ op = "sleep" THEN [tk0 EXCEPT ![a].asleep = t + e.d]
                    ELSE IF a \in Ids /\ tsk[a].s # 0 /\ e.e \in {"r", "x", "u"} /\ op = "sleep" THEN [tk0 EXCEPT ![a].asleep = 0]
+                   \* blk: the flag whose change the task is waiting for (nobody has set it accordingly since)
+                   ELSE IF a \in Ids /\ tsk[a].s # 0 /\ e.e = "b" /\ op = "await_f" /\ e.f \in 1..4 /\ flg[e.f] # e.v
+                        THEN [tk0 EXCEPT ![a].blk = e.f]
+                   ELSE IF a \in Ids /\ tsk[a].s # 0 /\ e.e \in {"r", "x", "u"} /\ op = "await_f" THEN [tk0 EXCEPT ![a].blk = 0]
+                   ELSE IF e.e = "b" /\ op = "fset"
+                        THEN [k \in Ids |-> IF tk0[k].blk = e.f THEN [tk0[k] EXCEPT !.blk = 0] ELSE tk0[k]]
                    ELSE tk0 IN
         CASE e.e = "b" /\ op = "open" ->
                /\ sco' = [sco EXCEPT ![e.s] = [owner |-> a, kind |-> e.kind, cause |-> FALSE]] /\ tsk' = tk1 /\ UNCHANGED bad
@@ -59,7 +76,7 @@ Step ==
                          ELSE IF ~tk1[k].started THEN tk1
                          ELSE IF tsk[k].haspend THEN tk1
                          \* a task that sleeps beyond now cannot end on its own in this time step: it must end cancelled
-                         ELSE [tk1 EXCEPT ![k].pend = t, ![k].haspend = TRUE, ![k].must = (tsk[k].asleep > t /\ k # a)]
+                         ELSE [tk1 EXCEPT ![k].pend = t, ![k].haspend = TRUE, ![k].must = ((tsk[k].asleep > t \/ tsk[k].blk # 0) /\ k # a)]
                /\ UNCHANGED <<sco, bad>>
           [] e.e = "end" /\ a \in Ids /\ tsk[a].s # 0 ->
                LET k == a
